@@ -291,7 +291,12 @@ func (g *c20gen) unitPattern() {
 
 func (g *c20gen) unitDisjStruct() {
 	d := g.id("#U")
-	form := g.r.Intn(4)
+	form := g.r.Intn(2)
+	if g.r.Chance(1, 12) {
+		// (embedded disjunctions: trim.Files does not terminate on a definition of this
+		// shape that is left unresolved — kept rare because each one costs a worker)
+		form = 2 + g.r.Intn(2)
+	}
 	switch form {
 	case 0:
 		g.add(fmt.Sprintf(`%s: {kind: "x", vx: int} | {kind: "y", vy: string}`, d))
